@@ -98,8 +98,12 @@ def _it(T, x):
     return complex(x)
 
 
-def case_arnoldi(T, n, max_iters, variant=0, complex_=False, zero_at=None, tol="sym", via="function", tiny=False):
+def case_arnoldi(T, n, max_iters, variant=0, complex_=False, zero_at=None, tol="sym", via="function", tiny=False, real_start=False):
     dt, Q, Hm, s, A, v = _setup(T, n, variant, complex_, zero_at)
+    if real_start:
+        # complex operator, start vector handed over with a real dtype (identity basis: v = s e_1)
+        assert variant < 0
+        v = K.mat(T, [[s if i == 0 else K.S(T, 0) for i in range(n)]], 'float64')[0]
     tolv = T.scalar("tol", 'float64', positive=True, form='py') if tol == "sym" else float(tol)
     if tol == "sym":
         T.assume(tolv < 1)
@@ -119,6 +123,27 @@ def case_arnoldi(T, n, max_iters, variant=0, complex_=False, zero_at=None, tol="
         Qc, Hc, info = cola.linalg.Arnoldi(start_vector=v, max_iters=max_iters, tol=tolv)(Aop)
     steps = info.get("iterations", 1) - 1
     _check(T, "arnoldi", Qc.to_dense(), Hc.to_dense(), Q, Hm, A, n, max_iters, steps, zero_at, tolv)
+
+
+def case_real_operator_complex_start(T, n, max_iters):
+    """real non-symmetric A (concrete generic rationals) with a complex start vector s * d: complex Krylov basis of a real operator"""
+    from fractions import Fraction as Fr
+    dtA, dtv = 'float64', 'complex128'
+    vals = {2: [[2, 1], [-1, 3]], 3: [[2, 1, Fr(1, 2)], [-1, 3, 1], [Fr(1, 3), -2, 1]]}[n]
+    A = K.mat(T, [[K.cst(T, Fr(x)) for x in r] for r in vals], dtA)
+    s = T.var("s", positive=True)
+    d = [(Fr(1), Fr(1, 2)), (Fr(-1, 3), Fr(1)), (Fr(1, 2), Fr(-2, 3))][:n]
+    v = K.mat(T, [[s * K.cst(T, re, im) for re, im in d]], dtv)[0]
+    Qc, Hc, info = arnoldi(cola.ops.Dense(A), v, max_iters=max_iters, tol=1e-9)
+    Qd, Hd = Qc.to_dense(), Hc.to_dense()
+    m = min(max_iters, n)
+    T.check("shapes", Qd.shape[0] == n and Hd.shape[0] == Hd.shape[1] + 1 and Qd.shape[1] == Hd.shape[0], f"Q {Qd.shape} H {Hd.shape}")
+    nv = np.sqrt((np.conjugate(v) @ v).real)
+    T.eq("first column == v/||v||", Qd[:, 0] * nv, v, dtype=False)
+    T.eq("A Q[:, :m] == Q H[:, :m]", A @ Qd[:, :m], Qd @ Hd[:, :m], dtype=False)
+    cols = m if m == n else m + 1
+    QH = np.conjugate(Qd[:, :cols]).T
+    T.eq("orthonormal columns", QH @ Qd[:, :cols], K.eye_like(T, cols, dtv), dtype=False)
 
 
 def case_eigs(T, n, max_iters, variant=0):
@@ -218,6 +243,11 @@ def cases(tier, seed):
     for n in ((2, 3) if tier == "quick" else (2, 3, 4)):
         for m in (1, n, n + 1):
             out.append((f"complex:n{n}m{m}", case_arnoldi, dict(n=n, max_iters=m, complex_=True, tol=1e-7)))
+    for n, m in ((2, 1), (2, 2), (3, 2), (3, 3)):
+        out.append((f"real-operator-complex-start:n{n}m{m}", case_real_operator_complex_start, dict(n=n, max_iters=m)))
+    for n, m in ((2, 2), (3, 2), (3, 4)):
+        out.append((f"complex-real-start:n{n}m{m}", case_arnoldi, dict(n=n, max_iters=m, variant=-1, complex_=True, real_start=True)))
+        out.append((f"complex-real-start-class:n{n}m{m}", case_arnoldi, dict(n=n, max_iters=m, variant=-1, complex_=True, real_start=True, via="class", tol=1e-7)))
     for variant in (0, 1):
         for m in (2, 3, 5):
             out.append((f"eigs2:v{variant}m{m}", case_eigs, dict(n=2, max_iters=m, variant=variant)))
